@@ -566,3 +566,69 @@ func mustDoUnlessFrom(o *an.Obl, f *an.Func, from *flow.Vertex, what string, sit
 		}
 	}
 }
+
+// loopVisitsAll checks that the range loop of f whose operand canon matches
+// loopRe is left only when the range is exhausted or through a failing
+// return: no `break`, no successful `return` and no `goto` out of its body.
+// Such a loop processes every element of its operand.
+func loopVisitsAll(o *an.Obl, f *an.Func, loopRe string) {
+	re := regexp.MustCompile(loopRe)
+	g := f.Graph()
+	found := 0
+	for _, head := range g.V {
+		rs, ok := head.Node.(*ast.RangeStmt)
+		if !ok || head.Kind != flow.KRange || !re.MatchString(f.Canon(rs.X)) {
+			continue
+		}
+		found++
+		var body *flow.Vertex
+		for _, e := range head.Out {
+			if e.Kind == flow.ERangeIn {
+				body = e.To
+			}
+		}
+		if body == nil {
+			continue
+		}
+		in := g.Reach(body, nil, map[*flow.Vertex]bool{head: true})
+		// the code after the loop
+		post := map[*flow.Vertex]bool{}
+		for _, e := range head.Out {
+			if e.Kind == flow.ERangeDone {
+				post = g.Reach(e.To, nil, map[*flow.Vertex]bool{head: true})
+			}
+		}
+		o.Site("%s: loop over %s at %s visits every element", f.ID, f.Canon(rs.X), f.Where(rs.Pos()))
+		for v := range in {
+			if v == head || post[v] || v == g.Exit || v == g.PanicExit {
+				continue
+			}
+			for _, e := range v.Out {
+				to := e.To
+				if to == head || (in[to] && !post[to] && to != g.Exit) {
+					continue
+				}
+				if to == g.PanicExit || v.Kind == flow.KPanic {
+					continue
+				}
+				if rsn, isRet := v.Node.(*ast.ReturnStmt); isRet {
+					s := an.Site{Fn: f, V: v, Node: rsn}
+					if f.ClassifyReturn(s) == an.RetFailure {
+						continue
+					}
+					o.FailAt(f.ID+"#loop-left-by-return", f.Where(v.Node.Pos()), "the loop over %s can be left by %s before every element was processed", f.Canon(rs.X), an.Text(rsn))
+					continue
+				}
+				where := f.Where(rs.Pos())
+				txt := "a jump"
+				if v.Node != nil {
+					where, txt = f.Where(v.Node.Pos()), an.Text(v.Node)
+				}
+				o.FailAt(f.ID+"#loop-left-early", where, "the loop over %s can be left at %s before every element was processed (break / goto)", f.Canon(rs.X), txt)
+			}
+		}
+	}
+	if found == 0 {
+		o.FailAt(f.ID+"#loop-"+loopRe, f.Where(f.Body.Pos()), "cannot find the loop over %s in %s", loopRe, f.ID)
+	}
+}
